@@ -42,7 +42,7 @@ class Recorder:
         self.call_log = []                # (actor, op) per armed DB-API call
         self.unexpected = []              # natural DB-API failures (not injected)
         self.closed = {}                  # actor -> [conn ids with a close() call]
-        self.fork_base = 0
+        self.default_actor = 1            # threads that never called set_actor
 
     # -- actors -------------------------------------------------------------------------------------------
     def set_actor(self, a):
@@ -50,7 +50,7 @@ class Recorder:
 
     @property
     def actor(self):
-        return getattr(self.local, 'actor', 0)
+        return getattr(self.local, 'actor', None) or self.default_actor
 
     def point(self):
         """A scheduling point: the calling worker waits until the controller lets it continue."""
@@ -64,6 +64,8 @@ class Recorder:
         e['a'] = kw.pop('a', None) or self.actor
         e.update(kw)
         e['closed'] = list(e['closed'])
+        if e['ev'] == 'Body' and e['op'] in ('write', 'rawwrite') and '_what' not in e:
+            e['_what'] = ['value', e['w']]
         e['dump'] = list(e['dump'])
         self.events.append(e)
         if self.sink is not None:
